@@ -130,6 +130,31 @@ def case_from_pandas(ctx, inp):
     ctx.branch("from_pandas")
 
 
+def case_from_pandas_joint(ctx, inp):
+    """JOINT / HISTORY: several from_pandas of the SAME pandas object (different npartitions / chunksize), one after the
+    other and in one graph: each has the planned divisions, all rows in order; the pandas object stays untouched."""
+    import pandas as pd
+    from core import import_dd
+    dd = import_dd()
+    import dask
+    idx = inp["seq"]
+    df = pd.DataFrame({"v": list(range(len(idx)))}, index=idx)
+    before = df.copy(deep=True)
+    with dask.config.set({"dataframe.convert-string": False, "scheduler": "sync"}):
+        ds = [dd.from_pandas(df, **{mode: n}) for mode, n in inp["variants"]]
+        solo = [list(d.compute().v) for d in ds]
+        joint = [list(x.v) for x in dask.compute(*ds)]
+        for (mode, n), d, a, b in zip(inp["variants"], ds, solo, joint):
+            model = ctx.lean(Sym("sdl"), idx, Sym(mode), n)
+            if model[0] == "ok":
+                ctx.eq("from_pandas divisions (joint stream)", model[1], [int(x) for x in d.divisions])
+            if a != list(df.v) or b != list(df.v):
+                ctx.fail("from_pandas of one pandas object in several layouts: rows differ", observed=[mode, n, a[:20], b[:20]])
+    if not df.equals(before):
+        ctx.fail("from_pandas modified the pandas source", observed=str(df)[:200])
+    ctx.branch("from_pandas-joint")
+
+
 def _conv(kind):
     return {"int": lambda v: v, "str": lambda v: "k%04d" % v, "float": lambda v: v * 0.5 - 3.0}[kind]
 
@@ -182,7 +207,7 @@ def case_pvw(ctx, inp):
         ctx.fail("process_val_weights: a division is not one of the summarised values", observed=rv)
 
 
-CASES = {"sdl": case_sdl, "from_pandas": case_from_pandas, "quantiles": case_quantiles, "pvw": case_pvw}
+CASES = {"sdl": case_sdl, "from_pandas": case_from_pandas, "from_pandas_joint": case_from_pandas_joint, "quantiles": case_quantiles, "pvw": case_pvw}
 
 
 def _sorted_seqs(maxlen, letters):
@@ -228,6 +253,11 @@ def generate(ctx):
         ln = rng.randint(1, 25)
         seq = sorted(rng.randint(0, rng.choice([3, 8, 30])) for _ in range(ln))
         yield "from_pandas", {"seq": seq, "mode": rng.choice(["npartitions", "chunksize"]), "n": rng.randint(1, ln + 1)}
+    for _ in range(ctx.n(15, 200)):
+        ln = rng.randint(1, 25)
+        seq = sorted(rng.randint(0, rng.choice([3, 8, 30])) for _ in range(ln))
+        yield "from_pandas_joint", {"seq": seq, "variants": [[rng.choice(["npartitions", "chunksize"]), rng.randint(1, ln + 1)]
+                                                              for _ in range(rng.randint(2, 3))]}
     for _ in range(ctx.n(200, 3000)):
         nv = rng.randint(1, 14)
         vals = sorted(rng.sample(range(60), nv))
